@@ -58,6 +58,22 @@ def site_fuzz(w, res, r):
             res["violations"].append(["panic-at:as_sig_input:header-value-%s" % cls, {"case": c, "panics": s.panics()[-1:]}])
 
 
+def log_header_instants(w, res, duration_ms):
+    """layer 1c: the log header at instants whose sub-second part ends in zeros (time-dependent input of every log call)"""
+    before = len(w.shim.panics())
+    o = w.shim.call("log_header_spin", duration_ms=duration_ms, timeout=duration_ms / 1000.0 + 60)
+    res["evaluations"] += 1
+    c = res["counts"]
+    c["log_header_calls_around_10ms_boundaries"] = c.get("log_header_calls_around_10ms_boundaries", 0) + o["calls"]
+    c["log_headers_with_short_time_stamp_seen"] = c.get("log_headers_with_short_time_stamp_seen", 0) + o["short_headers"]
+    c["site:log_header_short_time_stamp:reached"] = c.get("site:log_header_short_time_stamp:reached", 0) + o["short_headers"] + o["panicked_calls"]
+    for p in w.shim.panics()[before:]:
+        res["violations"].append(["panic-at:log-header-at-instant-with-trailing-zero-subsecond:%s" % (p.get("location") or "?").split("/src/")[-1], {"panic": p, "calls": o["calls"]}])
+        break
+    if o["short_headers"]:
+        res["nontrivial"].append("log-header-short-timestamp")
+
+
 def hostile_replies(w, res, r):
     """layer 1b: hostile host replies into hyper_client::get / read_response_body"""
     s = w.shim
@@ -379,6 +395,8 @@ def worker(args, scratch):
         if args["layer"] == "sites":
             site_fuzz(w, res, r)
             hostile_replies(w, res, r)
+            if not args.get("memcheck"):
+                log_header_instants(w, res, 3000 if args["tier"] == "quick" else 60000)
         else:
             e2e(w, res, r, scratch)
         res["samples"].append({"layer": args["layer"], "example": "prefix of length cut-delta followed by 2/3/4-byte characters, cut in {1024, 4096}"})
@@ -421,6 +439,6 @@ def run(tier, rep):
     for res in sandbox.run_many("vf.props.c13", "worker", args, workers=4, timeout=3000):
         rep.merge_worker(res)
     iargs = [{"shard": i, "tier": tier, "threads": 8, "burst": 12, "rounds": 30 if tier == "quick" else 600, "actor_delays": i % 4 != 3, "rt_threads": [2, 4][i % 2]} for i in range(2 if tier == "quick" else 8)]
-    for res in sandbox.run_many("vf.props.c13", "impatient_clients", iargs, workers=len(iargs), timeout=1500):
+    for res in sandbox.run_many("vf.props.c13", "impatient_clients", iargs, workers=len(iargs), timeout=1500 if tier == "quick" else 9000):
         rep.merge_worker(res)
-    rep.merge_worker(sandbox.run("vf.props.c13", "background_tasks", {"tier": tier, "interval_ms": 25, "rounds": 250 if tier == "quick" else 4000}, timeout=1500))
+    rep.merge_worker(sandbox.run("vf.props.c13", "background_tasks", {"tier": tier, "interval_ms": 25, "rounds": 250 if tier == "quick" else 4000}, timeout=1500 if tier == "quick" else 9000))
